@@ -104,6 +104,45 @@ def callee_order(path: Path, func: str) -> list[str]:
     raise ValueError(f"function {func} not found in {path}")
 
 
+def open_modes(path: Path) -> list[tuple[str, str, str]]:
+    """(enclosing function, callee, mode) for every zarr.open_group / zarr.open_array / zarr.open call in a source file.
+    mode is the literal `mode=` keyword, "default" when absent; anything else is refused (fail-closed)."""
+    tree = ast.parse(path.read_text())
+    out: list[tuple[str, str, str]] = []
+
+    def visit(node, fn):
+        for child in ast.iter_child_nodes(node):
+            name = fn
+            if isinstance(child, (ast.FunctionDef, ast.AsyncFunctionDef)):
+                name = child.name if fn == "" else f"{fn}.{child.name}"
+            elif isinstance(child, ast.ClassDef):
+                name = child.name if fn == "" else f"{fn}.{child.name}"
+            if isinstance(child, ast.Call) and isinstance(child.func, ast.Attribute) and child.func.attr in ("open_group", "open_array", "open") \
+                    and isinstance(child.func.value, ast.Name) and child.func.value.id == "zarr":
+                mode = "default"
+                for kw in child.keywords:
+                    if kw.arg == "mode":
+                        if not (isinstance(kw.value, ast.Constant) and isinstance(kw.value.value, str)):
+                            raise ValueError(f"{path.name}:{child.lineno}: zarr open mode is not a string literal")
+                        mode = kw.value.value
+                out.append((fn, child.func.attr, mode))
+            visit(child, name)
+
+    visit(tree, "")
+    return out
+
+
+# functions on the read side (C18): every zarr open in them must be read-only
+READ_SIDE = {
+    "core_io/_utils.py": ["open_storelike", "_detect_zarr_spec_version", "check_for_geff"],
+    "core_io/_base_read.py": ["GeffReader.__init__", "GeffReader._read_prop", "GeffReader.read_node_props", "GeffReader.read_edge_props",
+                              "GeffReader.build", "GeffReader._load_prop_to_memory", "read_to_memory"],
+    "validate/structure.py": ["validate_structure", "_validate_axes_structure", "_validate_props_group", "_validate_nodes_group",
+                              "_validate_edges_group"],
+    "convert/_dataframe.py": ["geff_to_dataframes"],
+}
+
+
 def gen_consts() -> str:
     lines = ["(* GENERATED by harness/translate.py from /repo -- do not edit *)",
              "From Coq Require Import String List.", "Import ListNotations.", ""]
@@ -143,6 +182,20 @@ def gen_consts() -> str:
     # call order of the write path (commit point comes last) and of delete_geff
     wa = callee_order(SRC / "core_io/_base_write.py", "write_arrays")
     dg = callee_order(SRC / "core_io/_utils.py", "delete_geff")
+    # zarr open modes of the read side (C18)
+    rs = []
+    for rel, fns in READ_SIDE.items():
+        for fn, callee, mode in open_modes(SRC / rel):
+            if fn in fns:
+                rs.append((f"{rel}:{fn}", callee, mode))
+    for fn, callee, mode in open_modes(SPEC / "_schema.py"):
+        if fn == "GeffMetadata.read":
+            rs.append((f"_schema.py:{fn}", callee, mode))
+    if not any(f.endswith("GeffMetadata.read") for f, _, _ in rs) or not any("open_storelike" in f for f, _, _ in rs):
+        raise ValueError("read-side open calls not found where expected")
+    lines.append("Definition read_side_opens : list (string * string * string) := [" +
+                 "; ".join(f"({cstr(f)}, {cstr(c)}, {cstr(m)})" for f, c, m in rs) + "].")
+    lines.append("")
     lines.append("Definition write_arrays_calls : list string := [" + "; ".join(cstr(c) for c in wa) + "].")
     lines.append("Definition delete_geff_calls : list string := [" + "; ".join(cstr(c) for c in dg) + "].")
     lines.append("")
